@@ -38,7 +38,7 @@ SUMMANDS = [
 
 
 def gates(tier):
-    return {'limit_grid_cases': 3000, 'members_expected': 2500, 'nonmembers_expected': 1500,
+    return {'metric_suffix_limit_cases': 100, 'limit_grid_cases': 3000, 'members_expected': 2500, 'nonmembers_expected': 1500,
             'transformation_cases': 600, 'input_position_subsets': 15, 'infinite_limit_cases': 150,
             'student_error_cases': 300, 'percent_tolerance_cases': 300, 'relative_operand_discriminating': 100, 'author_error_cases': 40, 'empty_range_cases': 50, 'beyond_cutoff_cases': 60}
 
@@ -132,6 +132,15 @@ def run_grid(ctx):
     ctx.subspace('limit pairs in [-12,12]^2 x even_odd {0,1,2}', n, True)
 
 
+def eval_suffixed(text):
+    """Value of '<number>[k|m]' as the grader must read it (used only to keep exactly representable spellings)."""
+    if text.endswith('k'):
+        return float(text[:-1]) * 1e3
+    if text.endswith('m'):
+        return float(text[:-1]) * 1e-3
+    return float(text)
+
+
 def run_transformations(ctx):
     """Real author sums; students submit transformed (equal) or perturbed (unequal) sums."""
     from mitxgraders import SumGrader
@@ -144,8 +153,9 @@ def run_transformations(ctx):
         eo = rng.choice([0, 0, 1, 2])
         x = round(rng.uniform(1.5, 3.5), 2)
         tol = rng.choice([1e-9, '0.0001%'])
+        metric = rng.random() < 0.3
         g = SumGrader(answers={'lower': str(lo), 'upper': str(hi), 'summand': tpl.format(v='n'), 'summation_variable': 'n'},
-                      even_odd=eo, tolerance=tol, variables=['x'], samples=2,
+                      even_odd=eo, tolerance=tol, variables=['x'], samples=2, metric_suffixes=metric,
                       sample_from={'x': lib.Scripted(values=[x, x])})
         kindt = rng.choice(['same', 'reverse', 'rename', 'shift', 'limit_plus', 'limit_minus', 'summand', 'parity_shift'])
         v = 'n'
@@ -190,6 +200,13 @@ def run_transformations(ctx):
         elif kindt == 'parity_shift':
             continue
         sub = [str(slo), str(shi), ssum, v]
+        if metric:
+            # the same integers written with metric suffixes (exactly representable: multiples of 1000 times 1m, thousandths times 1k)
+            sfx = lambda z: rng.choice(['%d000m' % z, '%s0.%03dk' % ('-' if z < 0 else '', abs(z)), str(z)])
+            cand = [sfx(slo), sfx(shi)]
+            if all(abs(float(eval_suffixed(c)) - z) == 0 for c, z in zip(cand, (slo, shi))):
+                sub = cand + [ssum, v]
+                ctx.count('metric_suffix_limit_cases')
         out = lib.call(ctx, g, None, sub)
         ctx.ev()
         ctx.count('transformation_cases')
@@ -378,6 +395,9 @@ def run_errors(ctx):
         (['-infty', '5/2', '2^n', 'n'], 'StudentFacing', 'noninteger_limit_with_infinite_partner'),
         (['infty', '0.5', '1/2^n', 'n'], 'StudentFacing', 'noninteger_limit_with_infinite_partner'),
         (['i', 'infty', '1/2^n', 'n'], 'StudentFacing', 'complex_limit'),
+        # almost-integers are not integers (and must not be silently truncated)
+        (['1', '4.9999999999', 'n^2', 'n'], 'StudentFacing', 'noninteger_limit'), (['1', '(0.1+0.7)*10-3', 'n^2', 'n'], 'StudentFacing', 'noninteger_limit'),
+        (['1.0000000001', '5', 'n^2', 'n'], 'StudentFacing', 'noninteger_limit'), (['0.3/0.1-2', '5', 'n^2', 'n'], 'StudentFacing', 'noninteger_limit'),
     ]
     for i in range(ctx.pick(2, 10)):
         for sub, fam, kind in cases:
